@@ -38,7 +38,7 @@ SiteOK(s) == /\ s.cont \in Containers /\ s.base \in BaseKinds /\ s.cls \in Class
              /\ s.ind \in BOOLEAN /\ s.ownerobj \in Nat
 SeedOK(S) == /\ S.enc \in BOOLEAN                       \* the document is encrypted (standard security handler)
              /\ \A s \in S.sites : SiteOK(s)
-             /\ \A t \in S.streams : t.plen \in Nat
+             /\ \A t \in S.streams : t.plen \in Nat /\ t.hdr \in Nat /\ \A fl \in t.fields : fl[1] + fl[2] <= t.plen
              /\ \A e \in S.ents : e.form \in {"table", "stream"}
              /\ S.flen \in Nat \ {0}
              /\ \A s1, s2 \in S.sites : s1.id = s2.id => s1 = s2        \* sites are named uniquely
@@ -90,9 +90,18 @@ SiteFaults(s) == RetypeSet(s) \cup Deletes(s) \cup (IF s.cls = "offset" THEN Off
 
 \* ------------------------------------------------------------------ stream payloads and the file
 Positions(n, stride) == {p \in 0..(n - 1) : p % stride = 0 \/ p = n - 1}
+Min2(a, b) == IF a < b THEN a ELSE b
+\* Embedded font programs (FontFile, FontFile2, FontFile3) begin with a binary header the reader trusts: for a TrueType
+\* program the 12-byte offset table and the 16-byte table directory records.  For such a payload the seed gives hdr (the
+\* header, the directory and 8 bytes more) and the header fields <<offset, width>> (numTables, each record's offset and
+\* length); the payload is then cut at EVERY length inside the header whatever the stride, and every field is set to 0,
+\* to its maximum and to a value beyond the end of the program.
+HeaderCuts(t) == {p \in 0..(Min2(t.hdr, t.plen) - 1) : TRUE}
+FieldValues == {"zero", "max", "beyond"}
 PayloadFaults(t) ==
   {F("payload", t.id, "corrupt", "", 0, p, m) : p \in Positions(t.plen, PayloadStride), m \in {"flip", "low"}}
-  \cup {F("payload", t.id, "truncate", "", 0, p, "") : p \in Positions(t.plen, PayloadStride)}   \* p bytes are kept
+  \cup {F("payload", t.id, "truncate", "", 0, p, "") : p \in Positions(t.plen, PayloadStride) \cup HeaderCuts(t)}   \* p bytes are kept
+  \cup {F("payload", t.id, "setfield", "", fl[2], fl[1], v) : fl \in t.fields, v \in FieldValues}        \* variant: width, pos: offset
 \* The one combination of faults in the space: every element of every /Kids array written twice, at every level at
 \* once.  A single duplicated kid doubles one subtree; all of them together make a tree of depth d a "diamond chain"
 \* with 2**d paths - a traversal must still visit every node once (work in proportion to the input).
@@ -106,17 +115,17 @@ EntFaults(e) == UNION {{F("xrefent", e.id, k, "", 0, 0, m) : m \in Modes(k)} : k
 
 \* ------------------------------------------------------------------ anchors: where a fault can sit
 \* one record shape for sites, stream payloads, cross-reference entries and the file as a whole
-Anchor(t, id, ownerobj, cont, base, ind, cls, n, form, enc) ==
+Anchor(t, id, ownerobj, cont, base, ind, cls, n, form, enc, hdr, fields) ==
   [t |-> t, id |-> id, ownerobj |-> ownerobj, cont |-> cont, base |-> base, ind |-> ind, cls |-> cls, n |-> n, form |-> form,
-   enc |-> enc]
+   enc |-> enc, hdr |-> hdr, fields |-> fields]
 Anchors(S) ==
-  {Anchor("site", s.id, s.ownerobj, s.cont, s.base, s.ind, s.cls, 0, "", S.enc) : s \in S.sites}
-  \cup {Anchor("stream", t.id, 0, "", "stream", FALSE, "", t.plen, "", S.enc) : t \in S.streams}
-  \cup {Anchor("ent", e.id, 0, "", "", FALSE, "", 0, e.form, S.enc) : e \in S.ents}
-  \cup {Anchor("file", "", 0, "", "", FALSE, "", S.flen, "", S.enc)}
+  {Anchor("site", s.id, s.ownerobj, s.cont, s.base, s.ind, s.cls, 0, "", S.enc, 0, {}) : s \in S.sites}
+  \cup {Anchor("stream", t.id, 0, "", "stream", FALSE, "", t.plen, "", S.enc, t.hdr, t.fields) : t \in S.streams}
+  \cup {Anchor("ent", e.id, 0, "", "", FALSE, "", 0, e.form, S.enc, 0, {}) : e \in S.ents}
+  \cup {Anchor("file", "", 0, "", "", FALSE, "", S.flen, "", S.enc, 0, {})}
 FaultsAt(a) ==
   CASE a.t = "site"   -> SiteFaults(a)
-    [] a.t = "stream" -> PayloadFaults([id |-> a.id, plen |-> a.n])
+    [] a.t = "stream" -> PayloadFaults([id |-> a.id, plen |-> a.n, hdr |-> a.hdr, fields |-> a.fields])
     [] a.t = "ent"    -> EntFaults(a)
     [] a.t = "file"   -> FileFaults([flen |-> a.n])
 FaultSpace(S) == UNION {FaultsAt(a) : a \in Anchors(S)}
@@ -138,6 +147,8 @@ NPos(n, stride) == IF n = 0 THEN 0 ELSE ((n - 1) \div stride) + 1 + (IF (n - 1) 
 ExpectedAt(a) ==
   CASE a.t = "site"   -> PerSite(a)
     [] a.t = "stream" -> 3 * NPos(a.n, PayloadStride)
+                         + Cardinality({p \in 0..(Min2(a.hdr, a.n) - 1) : p \notin Positions(a.n, PayloadStride)})
+                         + 3 * Cardinality(a.fields)
     [] a.t = "ent"    -> IF a.form = "stream" THEN 9 ELSE 4
     [] a.t = "file"   -> NPos(a.n, FileStride) + 2
 \* faults at different anchors differ in their site / class fields, so the space is the disjoint union over anchors
@@ -149,7 +160,7 @@ ASSUME SeedsWellFormed == \A n \in DOMAIN Seeds : SeedOK(Seeds[n])
 VARIABLES seed, at, fault
 vars == <<seed, at, fault>>
 
-NoAnchor == Anchor("none", "", 0, "", "", FALSE, "", 0, "", FALSE)
+NoAnchor == Anchor("none", "", 0, "", "", FALSE, "", 0, "", FALSE, 0, {})
 NoFault  == F("none", "", "", "", 0, 0, "")
 
 Init == /\ seed \in DOMAIN Seeds
@@ -180,7 +191,9 @@ Applicable ==
          /\ (fault.kind \in OffKinds => at.cls = "offset")
          /\ (fault.kind = "retype" => fault.to # "stream" /\ fault.variant \in VariantsOf(fault.to))
          /\ (fault.kind = "rawstr" => at.enc /\ at.cls = "value" /\ fault.variant \in RawForms)
-    [] fault.cls = "payload" -> at.t = "stream" /\ fault.site = at.id /\ fault.pos < at.n
+    [] fault.cls = "payload" -> /\ at.t = "stream" /\ fault.site = at.id /\ fault.pos < at.n
+                                /\ (fault.kind = "setfield" => <<fault.pos, fault.variant>> \in at.fields
+                                                                /\ fault.pos + fault.variant <= at.n)
     [] fault.cls = "file" -> at.t = "file" /\ fault.pos < at.n
     [] fault.cls = "multi" -> at.t = "file" /\ fault.kind = "dup_kids_all"
     [] fault.cls = "xrefent" -> at.t = "ent" /\ fault.site = at.id /\ fault.kind \in EntKinds(at)
@@ -205,7 +218,9 @@ KindsPresent ==
                /\ (at.enc => \A v \in RawForms : \E g \in sp : g.kind = "rawstr" /\ g.variant = v))  \* no ciphertext
     [] at.t = "stream" ->                                      \* every position: damaged, and cut
          /\ {g.pos : g \in {h \in sp : h.kind = "corrupt" /\ h.mode = "flip"}} = Positions(at.n, PayloadStride)
-         /\ {g.pos : g \in {h \in sp : h.kind = "truncate"}} = Positions(at.n, PayloadStride)
+         /\ Positions(at.n, PayloadStride) \subseteq {g.pos : g \in {h \in sp : h.kind = "truncate"}}
+         /\ \A p \in 0..(Min2(at.hdr, at.n) - 1) : F("payload", at.id, "truncate", "", 0, p, "") \in sp   \* every cut in the header
+         /\ \A fl \in at.fields : \A v \in FieldValues : F("payload", at.id, "setfield", "", fl[2], fl[1], v) \in sp
     [] at.t = "file" -> /\ {g.pos : g \in {h \in sp : h.cls = "file"}} = Positions(at.n, FileStride)     \* every truncation point
                         /\ MultiFaults \subseteq sp
     [] at.t = "ent" -> sp # {}
